@@ -14,76 +14,36 @@ open PdfVerif PdfVerif.Paths PdfVerif.PathSpec PdfVerif.Gen.PathsGen PdfVerif.Pa
 
 /-! ## Shapes of a painted path -/
 
-/-- FULL statement for one painting operator: painting the implementation's `curpath` of any
-well-formed list of sub-paths yields, after dropping the shapes of zero-segment sub-paths, exactly
-the shapes the specification demands - one per sub-path with a segment, in order, with points, class,
-bbox, transformed path, flags, width, dash and colours. -/
-def C16_paint_path_statement : Prop :=
-  ∀ (g : SGState) (st fi eo : Bool) (sps : List SubPath) (stp : Point), okFrom stp false sps →
-    (paintPath g.ctm (argsOf g st fi eo) (enc sps)).filter hasSeg = sps.filterMap (shapeOf g st fi eo)
-
-/-- Proved version: everything of the full statement except the ORDER of the four points of a
-rectangle (open finding `ltrect-pts-canonical-order`; see `C16_rect_pts_*` below for what holds). -/
-theorem C16_paint_path_partial (g : SGState) (st fi eo : Bool) (sps : List SubPath) (stp : Point)
+/-- FULL statement for one painting operator (proved since the fix of `LTRect.pts`): painting the
+implementation's `curpath` of any well-formed list of sub-paths yields, after dropping the shapes of
+zero-segment sub-paths, exactly the shapes the specification demands - one per sub-path with a segment,
+in order, with points (rectangles included, in path order), class, bbox, transformed path, flags, width,
+dash and colours. -/
+theorem C16_paint_path (g : SGState) (st fi eo : Bool) (sps : List SubPath) (stp : Point)
     (hok : okFrom stp false sps) :
-    ((paintPath g.ctm (argsOf g st fi eo) (enc sps)).filter hasSeg).map eraseRectPts =
-      (sps.filterMap (shapeOf g st fi eo)).map eraseRectPts :=
-  paintPath_enc g st fi eo sps stp hok
+    (paintPath g.ctm (argsOf g st fi eo) (enc sps)).filter hasSeg = sps.filterMap (shapeOf g st fi eo) := by
+  have h := paintPath_enc g st fi eo sps stp hok
+  rwa [map_erase, map_erase] at h
 
 /-- One sub-path with at least one segment gives exactly one shape: the specified one. -/
-theorem C16_subpath_shape_partial (g : SGState) (st fi eo : Bool) (sp : SubPath) (hne : sp.segs ≠ []) :
-    ∃ sh spec, paintSingle g.ctm (argsOf g st fi eo) (flat1 sp) = [sh] ∧ shapeOf g st fi eo sp = some spec ∧
-      eraseRectPts sh = eraseRectPts spec := by
+theorem C16_subpath_shape (g : SGState) (st fi eo : Bool) (sp : SubPath) (hne : sp.segs ≠ []) :
+    ∃ sh, paintSingle g.ctm (argsOf g st fi eo) (flat1 sp) = [sh] ∧ shapeOf g st fi eo sp = some sh := by
   have h := paintSingle_flat1 g st fi eo sp hne
-  rw [shapeOf_eq g st fi eo sp hne] at h ⊢
-  simp only [Option.toList, List.map_cons, List.map_nil] at h
-  obtain ⟨sh, rest, hp, h1, h2⟩ := List.map_eq_cons_iff.1 h
-  have hr : rest = [] := List.map_eq_nil_iff.1 h2
-  subst hr
-  exact ⟨sh, _, hp, rfl, h1⟩
+  rw [map_erase, map_erase, shapeOf_eq g st fi eo sp hne] at h
+  rw [shapeOf_eq g st fi eo sp hne]
+  exact ⟨_, h, rfl⟩
 
-/-- Rectangle whose first side is horizontal in device space: `LTRect.pts` IS the segment order. -/
-theorem C16_rect_pts_horizontal (a : PaintArgs) (s p1 p2 p3 : Point) (tp : List PSeg)
-    (h : s.2 = p1.2 ∧ p1.1 = p2.1 ∧ p2.2 = p3.2 ∧ p3.1 = s.1) :
-    (mkRect a (s.1, s.2, p2.1, p2.2) tp).pts = [s, p1, p2, p3] := by
-  obtain ⟨sx, sy⟩ := s; obtain ⟨x1, y1⟩ := p1; obtain ⟨x2, y2⟩ := p2; obtain ⟨x3, y3⟩ := p3
-  obtain ⟨h1, h2, h3, h4⟩ := h
-  simp only at h1 h2 h3 h4
-  subst h1 h2 h3 h4
-  rfl
-
-/-- Rectangle whose first side is vertical: `LTRect.pts` is the REVERSED corner order `[p0,p3,p2,p1]`. -/
-theorem C16_rect_pts_vertical (a : PaintArgs) (s p1 p2 p3 : Point) (tp : List PSeg)
-    (h : s.1 = p1.1 ∧ p1.2 = p2.2 ∧ p2.1 = p3.1 ∧ p3.2 = s.2) :
-    (mkRect a (s.1, s.2, p2.1, p2.2) tp).pts = [s, p3, p2, p1] := by
-  obtain ⟨sx, sy⟩ := s; obtain ⟨x1, y1⟩ := p1; obtain ⟨x2, y2⟩ := p2; obtain ⟨x3, y3⟩ := p3
-  obtain ⟨h1, h2, h3, h4⟩ := h
-  simp only at h1 h2 h3 h4
-  subst h1 h2 h3 h4
-  rfl
-
-/-- The sub-path `0 0 m 0 1 l 2 1 l 2 0 l h` (first side vertical), identity CTM. -/
+/-- The sub-path `0 0 m 0 1 l 2 1 l 2 0 l h` (first side vertical), identity CTM: the former
+counter-example of the finding `ltrect-pts-canonical-order` (corpus/C16/fixed-ltrect-pts-order.json). -/
 def cexRect : SubPath := { start := (0, 0), segs := [.l (0, 1), .l (2, 1), .l (2, 0)], closed := true }
 def cexG : SGState :=
   { ctm := (1, 0, 0, 1, 0, 0), linewidth := 0, dash := none, scolor := none, ncolor := none,
     sspace := ⟨"DeviceGray", 1⟩, nspace := ⟨"DeviceGray", 1⟩ }
 
-/-- Proved counter-example to the full statement (replayed on the implementation by
-corpus/C16/open-ltrect-pts-order.json): the rectangle's points come out as `[p0,p3,p2,p1]`. -/
-theorem C16_rect_pts_cex :
-    (paintPath cexG.ctm (argsOf cexG true false false) (enc [cexRect])).map (·.pts) = [[(0, 0), (2, 0), (2, 1), (0, 1)]] ∧
-    ([cexRect].filterMap (shapeOf cexG true false false)).map (·.pts) = [[(0, 0), (0, 1), (2, 1), (2, 0)]] := by
-  constructor <;> decide +kernel
-
-theorem C16_paint_path_statement_cex : ¬ C16_paint_path_statement := by
-  intro h
-  have h1 := h cexG true false false [cexRect] (0, 0) ⟨by simp [cexRect], trivial⟩
-  have h2 := congrArg (fun l => l.map (·.pts)) h1
-  have hf : (paintPath cexG.ctm (argsOf cexG true false false) (enc [cexRect])).filter hasSeg =
-      paintPath cexG.ctm (argsOf cexG true false false) (enc [cexRect]) := by decide +kernel
-  rw [hf] at h2
-  simp only [C16_rect_pts_cex.1, C16_rect_pts_cex.2] at h2
-  revert h2
+/-- Regression instance: the rectangle's points are now the corners in path order. -/
+theorem C16_rect_pts_fixed :
+    (paintPath cexG.ctm (argsOf cexG true false false) (enc [cexRect])).map (fun s => (s.kind, s.pts)) =
+      [(.rect, [(0, 0), (0, 1), (2, 1), (2, 0)])] := by
   decide +kernel
 
 /-! ## Whole programs -/
@@ -99,51 +59,53 @@ def C16_shapes_statement : Prop :=
 
 /-- Proved version, by induction over programs with the simulation invariant `Sim` (`curpath` = encoding
 of the sub-paths since the last painting operator / `n`; graphics state, saved states and colour spaces
-equal; operand stack arbitrary).  Excluded with explicit decidable hypotheses/projections:
-* the ORDER of a rectangle's four points (`eraseRectPts`; open finding `ltrect-pts-canonical-order`),
-* `supported`: no pattern colour (open finding `pattern-colour-not-recorded`) and `sc`-family operand
-  counts 1, 3, 4 (pdfminer ignores `sc` in colour spaces with another number of components). -/
+equal; operand stack arbitrary).  ALL attributes of all shapes are compared.  The only excluded region
+(explicit decidable hypothesis `supported`): an `sc`-family operator while a Pattern colour space is
+current (open finding `pattern-colour-not-recorded`).
+Included: operators with the right NUMBER of operands of which some are not numbers (`SOp.bad`, and a
+name given to `sc…` outside a Pattern space) - ignored by specification and model alike; colour spaces
+with any number >= 1 of components. -/
 theorem C16_shapes_partial (rot : Int) (mb : Rect) (res : List (String × CsSpec)) (prog : List SOp)
     (hdev : devOk (initSpaces res)) (hwf : specWf rot mb res prog = true)
-    (hsup : prog.all supported = true) :
+    (hsup : supported (initSpaces res) prog (initS (pageCtm rot mb.1 mb.2.1 mb.2.2.1 mb.2.2.2)) = true) :
     ∃ shapes, runPage rot mb res (progTokens prog) = .ok shapes ∧
-      (shapes.filter hasSeg).map eraseRectPts = (specPage rot mb res prog).map eraseRectPts := by
+      shapes.filter hasSeg = specPage rot mb res prog := by
   obtain ⟨x0, y0, x1, y1⟩ := mb
   simp only [specWf] at hwf
   obtain ⟨st', he, hs'⟩ := sim_run (initSpaces res) hdev prog _ _
     (sim_init (pageCtm rot x0 y0 x1 y1) res hdev) hwf hsup
   refine ⟨st'.out, ?_, ?_⟩
   · simp only [runPage, he]
-  · simpa [specPage] using hs'.out
+  · have := hs'.out
+    rw [map_erase, map_erase] at this
+    simpa [specPage] using this
 
 /-- The hypotheses of `C16_shapes_partial` are satisfiable by a non-trivial program:
 `2 0 0 2 10 20 cm q 0.5 w [3 2] 0 d 1 0 0 RG /DeviceCMYK cs 0 0 0 1 sc 1 2 m 3 4 l 5 6 7 8 9 10 c h
  1 1 5 5 re 7 7 l B* Q 0 0 m 1 1 l n 9 9 m 8 8 l s`. -/
 def exampleProg : List SOp :=
   [.cm 2 0 0 2 10 20, .q, .w (1/2), .d [3, 2] 0, .rgb true 1 0 0, .cs false "DeviceCMYK",
-   .sc .sc false [0, 0, 0, 1] none, .m (1, 2), .seg (.l (3, 4)), .seg (.c (5, 6) (7, 8) (9, 10)), .h,
+   .sc .sc false [0, 0, 0, 1] none, .bad .rg [.num 0, .num 1, .name "X"], .sc .scn false [1, 1, 1] (some "Nm"),
+   .bad .cm [.num 1, .arr [], .num 0, .num 1, .num 0, .num 0], .m (1, 2), .bad .l [.name "a", .num 2], .seg (.l (3, 4)), .seg (.c (5, 6) (7, 8) (9, 10)), .h,
    .re 1 1 5 5, .seg (.l (7, 7)), .paint .Bstar false true true true, .Q,
    .m (0, 0), .seg (.l (1, 1)), .n, .m (9, 9), .seg (.l (8, 8)), .paint .s true true false false]
 
 example : devOk (initSpaces []) ∧ specWf 90 (0, 0, 612, 792) [] exampleProg = true ∧
-    exampleProg.all supported = true ∧ (specPage 90 (0, 0, 612, 792) [] exampleProg).length = 4 := by
+    supported (initSpaces []) exampleProg (initS (pageCtm 90 0 0 612 792)) = true ∧ (specPage 90 (0, 0, 612, 792) [] exampleProg).length = 4 := by
   refine ⟨⟨by decide +kernel, by decide +kernel, by decide +kernel⟩, by decide +kernel, by decide +kernel,
     by decide +kernel⟩
 
-/-- Counter-example 1 to the full statement (rectangle drawn vertical side first). -/
-def cexProg1 : List SOp :=
-  [.m (0, 0), .seg (.l (0, 1)), .seg (.l (2, 1)), .seg (.l (2, 0)), .h, .paint .S false true false false]
-
-/-- Counter-example 2 (pattern colour: the model keeps `None`, the initial colour of the Pattern space). -/
+/-- Counter-example to the full statement (pattern colour: the model keeps `None`, the initial colour of
+the Pattern space). -/
 def cexProg2 : List SOp :=
   [.gray false (1/2), .cs false "Pattern", .sc .scn false [] (some "P0"), .m (0, 0), .seg (.l (1, 1)),
    .paint .f false false true false]
 
 theorem C16_shapes_statement_cex : ¬ C16_shapes_statement := by
   intro h
-  obtain ⟨shapes, h1, h2⟩ := h 0 (0, 0, 612, 792) [] cexProg1
+  obtain ⟨shapes, h1, h2⟩ := h 0 (0, 0, 612, 792) [] cexProg2
     ⟨by decide +kernel, by decide +kernel, by decide +kernel⟩ (by decide +kernel)
-  have hr : (match runPage 0 (0, 0, 612, 792) [] (progTokens cexProg1) with | .ok s => s | .error _ => []) =
+  have hr : (match runPage 0 (0, 0, 612, 792) [] (progTokens cexProg2) with | .ok s => s | .error _ => []) =
       shapes := by rw [h1]
   rw [← hr] at h2
   revert h2
@@ -157,15 +119,15 @@ theorem C16_pattern_cex :
     specWf 0 (0, 0, 612, 792) [] cexProg2 = true := by
   refine ⟨by decide +kernel, by decide +kernel, by decide +kernel⟩
 
-/-- Counter-example 3 (`/D2 cs 0.25 0.75 sc` in a 2-component DeviceN space: `sc` is ignored, the
-initial colour `(1, 1)` of the space stays). -/
+/-- Regression instance of the fixed finding `colour-arity-unsupported`: `/D2 cs 0.25 0.75 sc` in a
+2-component DeviceN space sets the colour `(0.25, 0.75)` (it was ignored, leaving the operands on the stack). -/
 def cexProg3 : List SOp :=
   [.gray false (1/2), .cs false "D2", .sc .sc false [1/4, 3/4] none, .m (0, 0), .seg (.l (1, 1)),
    .paint .f false false true false]
 
-theorem C16_arity_cex :
+theorem C16_arity_fixed :
     (match runPage 0 (0, 0, 612, 792) [("D2", .devn 2)] (progTokens cexProg3) with
-      | .ok s => s.map (·.ncolor) | .error _ => []) = [some (.comps [1, 1])] ∧
+      | .ok s => s.map (·.ncolor) | .error _ => []) = [some (.comps [1/4, 3/4])] ∧
     (specPage 0 (0, 0, 612, 792) [("D2", .devn 2)] cexProg3).map (·.ncolor) = [some (.comps [1/4, 3/4])] ∧
     specWf 0 (0, 0, 612, 792) [("D2", .devn 2)] cexProg3 = true := by
   refine ⟨by decide +kernel, by decide +kernel, by decide +kernel⟩
@@ -184,6 +146,17 @@ theorem C16_cs_resets_colour (st : IState) (name : String) (sp : CSpace) (h : cs
       st'.ctm = st.ctm ∧ st'.curpath = st.curpath ∧ st'.out = st.out := by
   refine ⟨doSelectSpace st false sp, by simp [call, h], ?_⟩
   simp [doSelectSpace, setColourOpt, setSpace, initialColour_eq_iso]
+
+/-! ## Operands that are not numbers -/
+
+/-- An operator that takes numbers and is given the right NUMBER of operands of which at least one is not
+a number (any position; `m l c v y re w cm g G rg RG k K` and the `sc` family in a 1/3/4-component space)
+is ignored: the model run on its tokens succeeds and stays in simulation with the UNCHANGED specification
+state (colours, width, CTM, path, shapes all as before). -/
+theorem C16_ill_typed_ignored (cs : SpaceMap) (st : IState) (ss : SState) (hs : Sim cs st ss) (k : OpK)
+    (args : List Operand) (hok : opOk cs ss (.bad k args) = true) (hsup : supOk ss (.bad k args) = true) :
+    ∃ st', execute (tokens (.bad k args)) st = .ok st' ∧ Sim cs st' ss :=
+  sim_bad cs st ss hs k args hok hsup
 
 /-! ## Tables regenerated from the Python source agree with ISO 32000-1 -/
 
